@@ -45,7 +45,7 @@ PROPS = {
         'design_ref': 'DESIGN.md §5 U4/K5, §6 C12',
     },
     'C06': {
-        'verus': ['analyzer_kinds', 'program_state'],
+        'verus': ['analyzer_kinds', 'program_state', 'expressions'],
         'kani': ['operators', 'expr_agreement'],
         'level': 'proof',
         'design_ref': 'DESIGN.md §5 U7/K2, §6 C06',
